@@ -17,12 +17,21 @@ fn guard<T>(f: impl FnOnce() -> Result<T, yuvxyb::ConversionError>) -> (String, 
     }
 }
 
+/// the constructor is part of the path from a caller's frame to a converted image: if it rejects the configuration the
+/// outcome is recorded as "ctor:<error>" (data for TLC, which accepts only "ok" or a ConversionError), never a harness crash
+fn guard_y<T: yuvxyb::Pixel, R>(mk: impl FnOnce() -> Result<Yuv<T>, yuvxyb::YuvError>, f: impl FnOnce(&Yuv<T>) -> Result<R, yuvxyb::ConversionError>) -> (String, Option<R>) {
+    match catch_unwind(AssertUnwindSafe(mk)) {
+        Ok(Ok(y)) => guard(|| f(&y)),
+        Ok(Err(e)) => (format!("ctor:{}", crate::frames::err_name_yuv(e)), None),
+        Err(_) => ("panic".to_string(), None),
+    }
+}
+
 const YUV_PX: [[u16; 3]; 4] = [[16, 128, 128], [235, 128, 128], [81, 90, 240], [145, 54, 34]];
 const RGB_PX: [[f32; 3]; 4] = [[0.0, 0.0, 0.0], [1.0, 1.0, 1.0], [0.75, 0.25, 0.5], [0.1, 0.6, 0.9]];
 
 fn y2r(c: &Cfg) -> (String, Option<Rgb>) {
-    let y: Yuv<u8> = yuv444::<u8>(&YUV_PX, 2, 2, c).expect("ctor");
-    guard(|| Rgb::try_from(&y))
+    guard_y(|| yuv444::<u8>(&YUV_PX, 2, 2, c), |y| Rgb::try_from(y))
 }
 fn r2y(c: &Cfg, t: u8, p: u8) -> (String, Option<Yuv<u8>>) {
     let r = Rgb::new(RGB_PX.to_vec(), 2, 2, tc(t), cp(p)).expect("rgb");
@@ -70,7 +79,7 @@ pub fn gen_c14(sh: &mut Shards, o: &Opts) -> serde_json::Value {
         {
             for &(m, t, p) in &triples {
                 let c = Cfg { mc: m, tc: t, cp: p, full: false, n: 8, ssx: 0, ssy: 0 };
-                let yuv = || yuv444::<u8>(&YUV_PX, 2, 2, &c).expect("ctor");
+                let yuv = || yuv444::<u8>(&YUV_PX, 2, 2, &c);
                 let rgb = || Rgb::new(RGB_PX.to_vec(), 2, 2, tc(t), cp(p)).expect("rgb");
                 let lin = || LinearRgb::new(RGB_PX.to_vec(), 2, 2).expect("lin");
                 let xyb = || Xyb::from(lin());
@@ -81,8 +90,8 @@ pub fn gen_c14(sh: &mut Shards, o: &Opts) -> serde_json::Value {
                 let _ = write!(s, "\"YuvToRgb\":\"{a}\"");
                 let (a, out_r2y) = r2y(&c, t, p);
                 let _ = write!(s, ",\"RgbToYuv\":\"{a}\"");
-                let _ = write!(s, ",\"YuvToLin\":\"{}\"", guard(|| LinearRgb::try_from(&yuv())).0);
-                let _ = write!(s, ",\"YuvToXyb\":\"{}\"", guard(|| Xyb::try_from(&yuv())).0);
+                let _ = write!(s, ",\"YuvToLin\":\"{}\"", guard_y(yuv, |y| LinearRgb::try_from(y)).0);
+                let _ = write!(s, ",\"YuvToXyb\":\"{}\"", guard_y(yuv, |y| Xyb::try_from(y)).0);
                 let _ = write!(s, ",\"RgbToLin\":\"{}\"", guard(|| LinearRgb::try_from(rgb())).0);
                 let _ = write!(s, ",\"RgbToXyb\":\"{}\"", guard(|| Xyb::try_from(rgb())).0);
                 let _ = write!(s, ",\"LinToRgb\":\"{}\"", guard(|| Rgb::try_from((lin(), tc(t), cp(p)))).0);
@@ -133,16 +142,16 @@ pub fn gen_c14(sh: &mut Shards, o: &Opts) -> serde_json::Value {
             for &m in &[1u8, 3, 0] {
                 if o.thorough || (t + p + m) % 2 == 0 {
                     let c = Cfg { mc: m, tc: t, cp: p, full: false, n: 8, ssx: 0, ssy: 0 };
-                    let yuv = || yuv444::<u8>(&big_yuv, bw, bh, &c).expect("ctor");
+                    let yuv = || yuv444::<u8>(&big_yuv, bw, bh, &c);
                     let rgb = || Rgb::new(big_rgb.clone(), bw, bh, tc(t), cp(p)).expect("rgb");
                     let lin = || LinearRgb::new(big_rgb.clone(), bw, bh).expect("lin");
                     let xyb = || Xyb::from(lin());
                     let mut s = String::new();
                     let _ = write!(s, "\"ev\":\"c14row\",\"big\":1,\"mc\":{m},\"tc\":{t},\"cp\":{p},\"res\":{{");
-                    let _ = write!(s, "\"YuvToRgb\":\"{}\"", guard(|| Rgb::try_from(&yuv())).0);
+                    let _ = write!(s, "\"YuvToRgb\":\"{}\"", guard_y(yuv, |y| Rgb::try_from(y)).0);
                     let _ = write!(s, ",\"RgbToYuv\":\"{}\"", guard(|| Yuv::<u8>::try_from((&rgb(), c.yuv_config()))).0);
-                    let _ = write!(s, ",\"YuvToLin\":\"{}\"", guard(|| LinearRgb::try_from(&yuv())).0);
-                    let _ = write!(s, ",\"YuvToXyb\":\"{}\"", guard(|| Xyb::try_from(&yuv())).0);
+                    let _ = write!(s, ",\"YuvToLin\":\"{}\"", guard_y(yuv, |y| LinearRgb::try_from(y)).0);
+                    let _ = write!(s, ",\"YuvToXyb\":\"{}\"", guard_y(yuv, |y| Xyb::try_from(y)).0);
                     let _ = write!(s, ",\"RgbToLin\":\"{}\"", guard(|| LinearRgb::try_from(rgb())).0);
                     let _ = write!(s, ",\"RgbToXyb\":\"{}\"", guard(|| Xyb::try_from(rgb())).0);
                     let _ = write!(s, ",\"LinToRgb\":\"{}\"", guard(|| Rgb::try_from((lin(), tc(t), cp(p)))).0);
@@ -196,8 +205,7 @@ fn layout_rows<T: yuvxyb::Pixel>(sh: &mut Shards, nb: u8, full: bool, ssx: u8, s
     let (w, h) = (4usize, 2usize);
     let ypx = lay_yuv(nb);
     let y2r = |c: &Cfg| -> (String, Option<Rgb>) {
-        let y: Yuv<T> = yuv444::<T>(&ypx, w, h, c).expect("ctor");
-        guard(|| Rgb::try_from(&y))
+        guard_y(|| yuv444::<T>(&ypx, w, h, c), |y| Rgb::try_from(y))
     };
     let r2y = |c: &Cfg, t: u8, p: u8| -> (String, Option<Yuv<T>>) {
         let r = Rgb::new(LAY_RGB.to_vec(), w, h, tc(t), cp(p)).expect("rgb");
@@ -214,7 +222,7 @@ fn layout_rows<T: yuvxyb::Pixel>(sh: &mut Shards, nb: u8, full: bool, ssx: u8, s
         for &t in &[1u8, 11, 13, 3, 16] {
             for &p in &[1u8, 9, 3] {
                 let c = Cfg { mc: m, tc: t, cp: p, full, n: nb, ssx, ssy };
-                let yuv = || yuv444::<T>(&ypx, w, h, &c).expect("ctor");
+                let yuv = || yuv444::<T>(&ypx, w, h, &c);
                 let rgb = || Rgb::new(LAY_RGB.to_vec(), w, h, tc(t), cp(p)).expect("rgb");
                 let lin = || LinearRgb::new(LAY_RGB.to_vec(), w, h).expect("lin");
                 let xyb = || Xyb::from(lin());
@@ -225,8 +233,8 @@ fn layout_rows<T: yuvxyb::Pixel>(sh: &mut Shards, nb: u8, full: bool, ssx: u8, s
                 let _ = write!(s, "\"YuvToRgb\":\"{a}\"");
                 let (a, out_r2y) = r2y(&c, t, p);
                 let _ = write!(s, ",\"RgbToYuv\":\"{a}\"");
-                let _ = write!(s, ",\"YuvToLin\":\"{}\"", guard(|| LinearRgb::try_from(&yuv())).0);
-                let _ = write!(s, ",\"YuvToXyb\":\"{}\"", guard(|| Xyb::try_from(&yuv())).0);
+                let _ = write!(s, ",\"YuvToLin\":\"{}\"", guard_y(yuv, |y| LinearRgb::try_from(y)).0);
+                let _ = write!(s, ",\"YuvToXyb\":\"{}\"", guard_y(yuv, |y| Xyb::try_from(y)).0);
                 let _ = write!(s, ",\"RgbToLin\":\"{}\"", guard(|| LinearRgb::try_from(rgb())).0);
                 let _ = write!(s, ",\"RgbToXyb\":\"{}\"", guard(|| Xyb::try_from(rgb())).0);
                 let _ = write!(s, ",\"LinToRgb\":\"{}\"", guard(|| Rgb::try_from((lin(), tc(t), cp(p)))).0);
